@@ -1113,6 +1113,14 @@ def run(ctx):
                     subj = node.args[2]
                 is_raw = name_read(subj) or (isinstance(subj, ast.Name) and
                                              subj.id in raw)
+                mentions = any(name_read(x) for x in ast.walk(subj)) or \
+                    any(isinstance(x, ast.Name) and x.id in raw
+                        for x in ast.walk(subj))
+                if mentions and not is_raw:
+                    # converted (str(...), formatted, ...) before matching
+                    n_sites += 1
+                    ctx.instance(R)
+                    ctx.oblige(True)
                 if is_raw:
                     n_sites += 1
                     ctx.instance(R)
